@@ -21,6 +21,7 @@ def run(name, props=None):
     rc, out = sh(["git", "-C", "/repo", "status", "--porcelain", "--untracked-files=no"])
     assert out.strip() == "", "/repo not clean"
     ok = True
+    saved = {p: open(os.path.join(V, "evidence", p + ".json")).read() for p in props if os.path.exists(os.path.join(V, "evidence", p + ".json"))}
     try:
         rc, out = sh(["git", "-C", "/repo", "apply", os.path.join(d, "patch.diff")])
         assert rc == 0, out
@@ -37,6 +38,8 @@ def run(name, props=None):
     finally:
         sh(["git", "-C", "/repo", "checkout", "--", "."])
         sh([sys.executable, os.path.join(V, "tools", "translate.py")], cwd=V)
+        for p, txt in saved.items():
+            open(os.path.join(V, "evidence", p + ".json"), "w").write(txt)
     return ok
 
 
